@@ -33,7 +33,7 @@ RULE = ("corpus: one witness per recorded finding; adversarial: 40 hand-written 
         "by reference (220 projects x 2 modes); layout: serde types defined below module directories named dist, node_modules, build, out, gen, vendor, "
         "tests, examples, benches, bin, .cargo, target2, my_target, git, foo.rs, src, lib (flat, nested, doubled; 51 projects x 2 modes); "
         "names: a project-defined serde struct / enum named like a std or ecosystem type, a TypeScript global, a primitive look-alike or a tool-internal name "
-        "(43 names x struct|enum x 2 modes), unmapped, at every site kind; derives: 13 legal spellings of the serde derive (path-qualified, one trait only, "
+        "(76 names x struct|enum x 2 modes; among them names that merely contain a special name as prefix, suffix or infix: MapMarker, RecordingState, PromiseLike, RoadMap, ...), unmapped, at every site kind; derives: 13 legal spellings of the serde derive (path-qualified, one trait only, "
         "split over attributes, spacing, trailing commas, multi-line) on a struct and an enum used as parameter, return, field, payload (x 2 modes); "
         "reuse: ONE CommandAnalyzer and ONE generator (library API, harness c02-reuse) taken through 2-3 analyse+generate rounds on edited sources - payload struct "
         "renamed / removed, event removed and re-added with another payload, a type added to an existing file and used from a new file, a field of a new type, "
